@@ -4,16 +4,19 @@ Confirms a seeded change in a scratch worktree of the pinned commit: it applies,
 tests pass, and the demonstration fails with the change and passes without it. Removes the worktree afterwards."""
 import json, os, re, shutil, subprocess, sys
 ID, N = sys.argv[1], sys.argv[2]
-src = f"/tmp/seed/{ID}/out/{N}"
-dst = f"/verif/seeded/{ID}-{N}"
+ROOT = os.environ.get("SEED_ROOT", "/tmp/seed")          # where the sub-agent delivered
+BASE = os.environ.get("SEED_BASE", "32497ec")            # commit the change was written against
+SUFFIX = os.environ.get("SEED_SUFFIX", "")               # e.g. "b" for second-round seeds
+src = f"{ROOT}/{ID}/out/{N}"
+dst = f"/verif/seeded/{ID}{SUFFIX}-{N}"
 os.makedirs(dst, exist_ok=True)
 for f in os.listdir(src):
     if os.path.isfile(os.path.join(src, f)) and os.path.getsize(os.path.join(src, f)) < 300_000 and (f.endswith((".cpp", ".json", ".diff", ".nif", ".txt", ".hpp", ".h", ".sh")) ):
         shutil.copy(os.path.join(src, f), dst)
 meta = json.load(open(os.path.join(dst, "meta.json")))
-wt = f"/tmp/confirm/{ID}-{N}"
+wt = f"/tmp/confirm/{ID}{SUFFIX}-{N}"
 def fix(s):
-    s = s.replace(src, dst).replace(f"/tmp/seed/{ID}/wt", wt)
+    s = s.replace(src, dst).replace(f"{ROOT}/{ID}/wt", wt)
     s = re.split(r"\s{2,}\(|\s+#|\s\(the |\s\(optional", s)[0]
     return s.strip()
 build, run = fix(meta["build"]), fix(meta["run"])
@@ -25,8 +28,8 @@ def sh(cmd, cwd, log, timeout=1800):
             return 124
 os.makedirs("/tmp/confirm", exist_ok=True)
 subprocess.run(["git", "-C", "/repo", "worktree", "remove", "--force", wt], capture_output=True)
-subprocess.run(["git", "-C", "/repo", "worktree", "add", "-q", "--detach", wt, "32497ec"], check=True)
-L = f"/tmp/confirm/{ID}-{N}"
+subprocess.run(["git", "-C", "/repo", "worktree", "add", "-q", "--detach", wt, BASE], check=True)
+L = f"/tmp/confirm/{ID}{SUFFIX}-{N}"
 r = {}
 r["demo_build_clean"] = sh(build, wt, L + ".cb.log")
 r["demo_clean_rc"] = sh(run, wt, L + ".cr.log", 600)
@@ -43,7 +46,8 @@ r["confirmed"] = ok
 meta["build"], meta["run"] = build.replace(wt, "<worktree>"), run.replace(wt, "<worktree>")
 meta["breaks"] = ID
 meta["confirmation"] = r
-meta["what_i_ran"] = ("tools/confirm_seed.py: scratch worktree of 32497ec; demo built+run on the clean tree (must exit 0); patch applied; "
+meta["base_commit"] = BASE
+meta["what_i_ran"] = (f"tools/confirm_seed.py: scratch worktree of {BASE}; demo built+run on the clean tree (must exit 0); patch applied; "
                       "demo rebuilt+run (must exit non-zero); cmake build + ctest (28 tests must pass)")
 json.dump(meta, open(os.path.join(dst, "meta.json"), "w"), indent=1)
 print(f"{ID}-{N}", "CONFIRMED" if ok else "NOT-CONFIRMED", r, flush=True)
